@@ -18,6 +18,8 @@ for s in sorted(res):
     prop = s.split("-")[0]
     if not isinstance(v, dict) or "error" in v:
         print("| %s | %s | n/a (%s) |" % (s, desc.get(s, ""), (v or {}).get("error", "no patch")[:60])); continue
+    if not v and s in ("C05-B", "C15-D"):
+        print("| %s | %s | retired: its code site (the Comment arm of the lexer) was removed by fix b100587; caught before that by C04/C05/C12(/C15) |" % (s, desc.get(s, ""))); continue
     if not v and s == "C07-F":
         print("| %s | %s | neutralised by fix 5cee671 (its edge orientation became the correct one; the edit was adopted as fix b97222d) |" % (s, desc.get(s, ""))); continue
     if not v and s == "C04-B":
